@@ -132,7 +132,7 @@ pub fn dispatch(p: &[String]) -> String {
                 _ => "{\"error\": \"unknown opcode\"}".to_string(),
             }
         }
-        "typed_request" => generated::typed_request(&p[1], p[2].parse::<u64>().unwrap_or(0) as u32),
+        "typed_request" => generated::typed_request(&p[1], p[2].parse::<u64>().unwrap_or(0) as u32, p.len() > 3 && p[3] == "empty"),
         "builder_set_version" => {
             // builder_set_version <0|1>: set_version(1,5) on a fresh builder, or after an earlier set_version(1,0) + new_from_module
             use rspirv::binary::Assemble;
